@@ -31,7 +31,8 @@ def validate(obs, scratch):
     if not recs:
         return 0, [], 0
     fails, states = core.eval_report("PipelineTrace", "PipelineTrace.cfg", recs,
-                                     scratch=scratch, depth_first=True)
+                                     scratch=scratch, depth_first=True,
+                                     is_start=lambda r: r.get("ev") == "reset")
     starts = [i for i, r in enumerate(recs) if r["ev"] == "reset"]
     out = []
     bad_runs = set()
